@@ -24,7 +24,7 @@ def load_known_findings():
 
 
 def compile_and_link(builder, ob, workdir):
-    objs = dict(builder.lib(ob.config, ob.throw, ob.libdefs))
+    objs = dict(builder.lib(ob.config, ob.throw, ob.libdefs, ob.filedefs))
     hsrc = os.path.join(VERIF, "harness", ob.harness)
     ho = os.path.join(workdir, "harness.o")
     flags = BASE_CFLAGS + CONFIGS[ob.config] + ["-DVERIF_REPO=\"%s\"" % REPO] + ["-D" + d for d in ob.defs]
@@ -83,7 +83,7 @@ def cbmc_cmd(ob, gb):
     return cmd
 
 
-NATIVE_CFLAGS = ["-I", os.path.join(REPO, "include"), "-I", os.path.join(VERIF, "lib"), "-std=gnu99",
+NATIVE_CFLAGS = ["-I", os.path.join(REPO, "include"), "-I", os.path.join(REPO, "src"), "-I", os.path.join(VERIF, "lib"), "-std=gnu99",
                  "-DCELLO_NSTRACE", "-D" + GUARD, "-DV_NATIVE", "-g", "-O0", "-w",
                  "-fsanitize=address,undefined", "-DVERIF_REPO=\"%s\"" % REPO]
 _native_lock = threading.Lock()
@@ -92,7 +92,7 @@ _native_cache = {}
 
 def native_lib(ob, root):
     """gcc+ASan+UBSan objects of the real sources for this obligation's configuration (cached per run)"""
-    key = (ob.config, ob.throw, tuple(ob.libdefs))
+    key = (ob.config, ob.throw, tuple(ob.libdefs), tuple(sorted((k, tuple(v)) for k, v in ob.filedefs.items())))
     with _native_lock:
         if key in _native_cache and os.path.isdir(_native_cache[key][0]):
             return _native_cache[key][1]
@@ -102,7 +102,7 @@ def native_lib(ob, root):
         objs = {}
         cmds = []
         for f in src_files():
-            fl = list(cflags) + list(ob.libdefs)
+            fl = list(cflags) + list(ob.libdefs) + list(ob.filedefs.get(f, []))
             if ob.throw == "stub" and f == "Exception.c":
                 fl.append("-Dexception_throw=cello_real_exception_throw")
             if ob.throw == "real" and f != "Exception.c":
@@ -121,7 +121,7 @@ def native_lib(ob, root):
         return objs
 
 
-def native_replay(ob, inputs_c, workdir, tag, stop_at_witness=False):
+def native_replay(ob, inputs_c, workdir, tag, stop_at_witness=False, expect_msg=None):
     """compile the same harness natively against the real sources and run it on the solver's inputs"""
     d = os.path.join(workdir, "native-" + tag)
     os.makedirs(d, exist_ok=True)
@@ -172,7 +172,11 @@ def native_replay(ob, inputs_c, workdir, tag, stop_at_witness=False):
     if "REPLAY-INVALID" in r["out"]:
         st = "invalid"
     elif "REPLAY-ASSERT-FAILED" in r["out"]:
-        st = "reproduced"
+        m = re.search(r"REPLAY-ASSERT-FAILED: (.*) \(", r["out"])
+        if expect_msg is None or (m and m.group(1).strip() == expect_msg.strip()):
+            st = "reproduced"
+        else:
+            st = "reproduced-other-assertion"
     elif "AddressSanitizer" in r["err"] or "runtime error" in r["err"]:
         st = "reproduced-sanitizer"
     elif r["timeout"]:
@@ -205,10 +209,17 @@ def run_ob(builder, ob, scratch, replay_dir, want_native=True):
     with open(outf, "wb") as fo:
         r = run(cmd, timeout=ob.timeout, mem_gb=ob.mem_gb, stdout=fo)
     text = open(outf, "r", errors="replace").read()
+    if os.environ.get("VERIF_DEBUG"):
+        os.makedirs("/tmp/verif-debug", exist_ok=True)
+        shutil.copy(outf, "/tmp/verif-debug/%s.json" % re.sub(r"[^A-Za-z0-9_.-]", "_", ob.name))
+        shutil.copy(gb, "/tmp/verif-debug/%s.gb" % re.sub(r"[^A-Za-z0-9_.-]", "_", ob.name))
     res["cbmc_wall_s"] = round(r["wall"], 2)
     if r["timeout"]:
         res["verdict"] = "INCONCLUSIVE"
-        res["error"] = "cbmc exceeded the wall-clock cap of %ds" % ob.timeout
+        part = parse_cbmc_json(text)
+        res["stats"] = part["stats"]
+        phase = "symex" if "symex_s" not in part["stats"] else "solver"
+        res["error"] = "cbmc exceeded the wall-clock cap of %ds (in %s; last: %s)" % (ob.timeout, phase, " | ".join(part["messages"][-2:])[:200])
         res["wall_s"] = time.time() - t0
         _cleanup(workdir)
         return res
@@ -222,10 +233,20 @@ def run_ob(builder, ob, scratch, replay_dir, want_native=True):
         res["wall_s"] = time.time() - t0
         _cleanup(workdir)
         return res
+    if parsed["error"]:
+        res["verdict"] = "INCONCLUSIVE"
+        res["error"] = "cbmc reported an error, verdicts not trusted: " + parsed["error"][:600]
+        res["wall_s"] = time.time() - t0
+        _cleanup(workdir)
+        return res
     witness_seen = 0
     witness_ok = 0
     for p in parsed["props"]:
         d = p["description"] or ""
+        if d.startswith("OPTWITNESS:"):
+            if p["status"] == "FAILURE":
+                res["opt_witness_reached"] = res.get("opt_witness_reached", 0) + 1
+            continue
         if d.startswith("WITNESS:"):
             witness_seen += 1
             if p["status"] == "FAILURE":
@@ -239,6 +260,12 @@ def run_ob(builder, ob, scratch, replay_dir, want_native=True):
     res["witness"] = dict(seen=witness_seen, reached=witness_ok)
     res["n_props"] = len(parsed["props"])
     res["n_props_ok"] = sum(1 for p in parsed["props"] if p["status"] == "SUCCESS")
+    # standard-level UB that cbmc's --pointer-check flags but that has no observable effect on a flat
+    # address space (relational comparison of pointers into different objects, e.g. Table_Get's
+    # "is the key inside my storage" test): listed separately, never a VIOLATION
+    ub = [p for p in res["failures"] if (p["description"] or "").startswith("same object violation")]
+    res["ub_notes"] = sorted(set("%s: %s" % (p["property"], p["description"]) for p in ub))
+    res["failures"] = [p for p in res["failures"] if p not in ub]
     unwinding = [p for p in res["failures"] if "unwinding assertion" in (p["description"] or "")]
     real = [p for p in res["failures"] if p not in unwinding]
     if unwinding and not real:
@@ -247,7 +274,7 @@ def run_ob(builder, ob, scratch, replay_dir, want_native=True):
             "%s %s" % (p["property"], p["description"]) for p in unwinding[:5])
     elif real:
         res["verdict"] = "FAILED"
-    elif not ob.nowitness and (witness_seen == 0 or witness_ok < witness_seen):
+    elif not ob.nowitness and ((witness_seen == 0 and not res.get("opt_witness_reached")) or witness_ok < witness_seen):
         res["verdict"] = "VACUOUS"
         res["error"] = "reachability witness not reached (%d of %d): assumptions unsatisfiable or assertion unreachable" % (witness_ok, witness_seen)
     else:
@@ -261,7 +288,7 @@ def run_ob(builder, ob, scratch, replay_dir, want_native=True):
             if env_w["status"] not in ("witness-reached",):
                 res["witness_replay_output"] = env_w["output"][-800:]
         for i, p in enumerate(real[:4]):
-            rr = native_replay(ob, p["inputs_c"], workdir, "f%d" % i)
+            rr = native_replay(ob, p["inputs_c"], workdir, "f%d" % i, expect_msg=p["description"])
             p["replay"] = rr["status"]
             p["replay_output"] = rr["output"][-1500:]
     res.pop("sample_c", None)
@@ -336,9 +363,14 @@ def check_property(prop, tier, only=None, verbose=True, jobs=None):
     build_err = None
     try:
         # build libs first (serially per config; each build is itself parallel)
-        for key in sorted(set((o.config, o.throw, tuple(o.libdefs)) for o in obs)):
+        seen_keys = set()
+        for o in obs:
+            k = (o.config, o.throw, tuple(o.libdefs), tuple(sorted((a, tuple(b)) for a, b in o.filedefs.items())))
+            if k in seen_keys:
+                continue
+            seen_keys.add(k)
             try:
-                builder.lib(*key)
+                builder.lib(o.config, o.throw, o.libdefs, o.filedefs)
             except BuildError as e:
                 build_err = str(e)
                 break
@@ -431,7 +463,7 @@ def finish(prop, tier, seed, results, known, fixed, build_err, wall, obs):
                                  cbmc=r.get("cmd"), backend=r["backend"], stats=r["stats"],
                                  properties_checked=r.get("n_props"), properties_ok=r.get("n_props_ok"),
                                  witness=r["witness"], witness_replay=r.get("witness_replay"),
-                                 known_findings=r["known_hits"], error=r["error"],
+                                 known_findings=r["known_hits"], error=r["error"], standard_level_ub_notes=r.get("ub_notes", []),
                                  failures=[dict(assertion=p["description"], replay=p.get("replay"), inputs=p["inputs"]) for p in r["failures"][:4]])
                             for r in results],
         ),
